@@ -18,7 +18,7 @@ if [ ! -x "$C/$H/e1" ]; then
   rm -rf "$W/repo"
   mkdir -p "$C/$H"
   mv "$W/e1" "$W/e1native" "$W/rewrites.json" "$C/$H/"
-  # keep the two most recent builds only
-  ls -1dt "$C"/*/ 2>/dev/null | grep -v build. | tail -n +3 | xargs -r rm -rf
+  # keep the eight most recent builds only (a long run may still be using an older one)
+  ls -1dt "$C"/*/ 2>/dev/null | grep -v build. | tail -n +9 | xargs -r rm -rf
 fi
 echo "$C/$H"
